@@ -244,10 +244,8 @@ package types
 //@     invariant forall k string :: has(newProject.Services, k) && seen(k) ==> !has(newProject.Services[k].DependsOn, name)
 
 //@ func (*Project).WithServicesEnabled
-//@   except frame[M|Str|Int|c20f179b9/ret3], frame[M|Str|Int|c45ef07a9/ret3], frame[M|Str|Int|cf403b835/ret3], frame[M|Str|Slice|ce9990b8f/ret3], frame[M|Str|T_types_ConfigObjConfig|c540f66e7/ret3], frame[M|Str|T_types_NetworkConfig|cde81b102/ret3], frame[M|Str|T_types_ServiceDependency|c8f68885c/ret3], frame[M|Str|T_types_VolumeConfig|c716e3656/ret3] : undischarged on the reference tree (engine limit or missing callee contract), not claimed
-//@   except frame[D|Str|Any|c8c47bee8/ret3], frame[D|Str|Int|c20f179b9/ret3], frame[D|Str|Int|c45ef07a9/ret3], frame[D|Str|Int|cf403b835/ret3], frame[D|Str|Slice|ce9990b8f/ret3], frame[D|Str|Str|cefb8f1e7/ret3], frame[D|Str|T_types_ConfigObjConfig|c540f66e7/ret3], frame[D|Str|T_types_NetworkConfig|cde81b102/ret3], frame[D|Str|T_types_SecretConfig|c7c89da88/ret3], frame[D|Str|T_types_ServiceConfig|ccb4e64ef/ret3], frame[D|Str|T_types_ServiceDependency|c8f68885c/ret3], frame[D|Str|T_types_VolumeConfig|c716e3656/ret3], frame[HF|T_types_BlkioConfig|0/ret3], frame[HF|T_types_BlkioConfig|1/ret3], frame[HF|T_types_BlkioConfig|2/ret3], frame[HF|T_types_BlkioConfig|3/ret3], frame[HF|T_types_BlkioConfig|4/ret3], frame[HF|T_types_BlkioConfig|5/ret3], frame[HF|T_types_BlkioConfig|6/ret3], frame[HF|T_types_BuildConfig|0/ret3], frame[HF|T_types_BuildConfig|1/ret3], frame[HF|T_types_BuildConfig|10/ret3], frame[HF|T_types_BuildConfig|11/ret3], frame[HF|T_types_BuildConfig|12/ret3], frame[HF|T_types_BuildConfig|13/ret3], frame[HF|T_types_BuildConfig|14/ret3], frame[HF|T_types_BuildConfig|15/ret3], frame[HF|T_types_BuildConfig|16/ret3], frame[HF|T_types_BuildConfig|17/ret3], frame[HF|T_types_BuildConfig|18/ret3], frame[HF|T_types_BuildConfig|19/ret3], frame[HF|T_types_BuildConfig|2/ret3], frame[HF|T_types_BuildConfig|20/ret3], frame[HF|T_types_BuildConfig|21/ret3], frame[HF|T_types_BuildConfig|22/ret3], frame[HF|T_types_BuildConfig|3/ret3], frame[HF|T_types_BuildConfig|4/ret3], frame[HF|T_types_BuildConfig|5/ret3], frame[HF|T_types_BuildConfig|6/ret3], frame[HF|T_types_BuildConfig|7/ret3], frame[HF|T_types_BuildConfig|8/ret3], frame[HF|T_types_BuildConfig|9/ret3], frame[HF|T_types_ConfigObjConfig|0/ret3], frame[HF|T_types_ConfigObjConfig|1/ret3], frame[HF|T_types_ConfigObjConfig|10/ret3], frame[HF|T_types_ConfigObjConfig|2/ret3], frame[HF|T_types_ConfigObjConfig|3/ret3], frame[HF|T_types_ConfigObjConfig|4/ret3], frame[HF|T_types_ConfigObjConfig|5/ret3], frame[HF|T_types_ConfigObjConfig|6/ret3], frame[HF|T_types_ConfigObjConfig|7/ret3], frame[HF|T_types_ConfigObjConfig|8/ret3], frame[HF|T_types_ConfigObjConfig|9/ret3], frame[HF|T_types_CredentialSpecConfig|0/ret3], frame[HF|T_types_CredentialSpecConfig|1/ret3], frame[HF|T_types_CredentialSpecConfig|2/ret3], frame[HF|T_types_CredentialSpecConfig|3/ret3], frame[HF|T_types_DeployConfig|0/ret3], frame[HF|T_types_DeployConfig|1/ret3], frame[HF|T_types_DeployConfig|2/ret3], frame[HF|T_types_DeployConfig|3/ret3], frame[HF|T_types_DeployConfig|4/ret3], frame[HF|T_types_DeployConfig|5.0/ret3], frame[HF|T_types_DeployConfig|5.1/ret3], frame[HF|T_types_DeployConfig|5.2/ret3], frame[HF|T_types_DeployConfig|6/ret3], frame[HF|T_types_DeployConfig|7.0/ret3], frame[HF|T_types_DeployConfig|7.1/ret3], frame[HF|T_types_DeployConfig|7.2/ret3], frame[HF|T_types_DeployConfig|7.3/ret3], frame[HF|T_types_DeployConfig|8/ret3], frame[HF|T_types_DeployConfig|9/ret3], frame[HF|T_types_DevelopConfig|0/ret3], frame[HF|T_types_DevelopConfig|1/ret3], frame[HF|T_types_DeviceMapping|0/ret3], frame[HF|T_types_DeviceMapping|1/ret3], frame[HF|T_types_DeviceMapping|2/ret3], frame[HF|T_types_DeviceMapping|3/ret3], frame[HF|T_types_DeviceRequest|0/ret3], frame[HF|T_types_DeviceRequest|1/ret3], frame[HF|T_types_DeviceRequest|2/ret3], frame[HF|T_types_DeviceRequest|3/ret3], frame[HF|T_types_DeviceRequest|4/ret3], frame[HF|T_types_DiscreteGenericResource|0/ret3], frame[HF|T_types_DiscreteGenericResource|1/ret3], frame[HF|T_types_DiscreteGenericResource|2/ret3], frame[HF|T_types_ExtendsConfig|0/ret3], frame[HF|T_types_ExtendsConfig|1/ret3], frame[HF|T_types_GenericResource|0/ret3], frame[HF|T_types_GenericResource|1/ret3], frame[HF|T_types_HealthCheckConfig|0/ret3], frame[HF|T_types_HealthCheckConfig|1/ret3], frame[HF|T_types_HealthCheckConfig|2/ret3], frame[HF|T_types_HealthCheckConfig|3/ret3], frame[HF|T_types_HealthCheckConfig|4/ret3], frame[HF|T_types_HealthCheckConfig|5/ret3], frame[HF|T_types_HealthCheckConfig|6/ret3], frame[HF|T_types_HealthCheckConfig|7/ret3], frame[HF|T_types_IPAMConfig|0/ret3], frame[HF|T_types_IPAMConfig|1/ret3], frame[HF|T_types_IPAMConfig|2/ret3], frame[HF|T_types_IPAMPool|0/ret3], frame[HF|T_types_IPAMPool|1/ret3], frame[HF|T_types_IPAMPool|2/ret3], frame[HF|T_types_IPAMPool|3/ret3], frame[HF|T_types_IPAMPool|4/ret3], frame[HF|T_types_LoggingConfig|0/ret3], frame[HF|T_types_LoggingConfig|1/ret3], frame[HF|T_types_LoggingConfig|2/ret3], frame[HF|T_types_NetworkConfig|0/ret3], frame[HF|T_types_NetworkConfig|1/ret3], frame[HF|T_types_NetworkConfig|10/ret3], frame[HF|T_types_NetworkConfig|2/ret3], frame[HF|T_types_NetworkConfig|3.0/ret3], frame[HF|T_types_NetworkConfig|3.1/ret3], frame[HF|T_types_NetworkConfig|3.2/ret3], frame[HF|T_types_NetworkConfig|4/ret3], frame[HF|T_types_NetworkConfig|5/ret3], frame[HF|T_types_NetworkConfig|6/ret3], frame[HF|T_types_NetworkConfig|7/ret3], frame[HF|T_types_NetworkConfig|8/ret3], frame[HF|T_types_NetworkConfig|9/ret3], frame[HF|T_types_PlacementPreferences|0/ret3], frame[HF|T_types_PlacementPreferences|1/ret3], frame[HF|T_types_Placement|0/ret3], frame[HF|T_types_Placement|1/ret3], frame[HF|T_types_Placement|2/ret3], frame[HF|T_types_Placement|3/ret3], frame[HF|T_types_Project|0/ret3], frame[HF|T_types_Project|1/ret3], frame[HF|T_types_Project|10/ret3], frame[HF|T_types_Project|11/ret3], frame[HF|T_types_Project|2/ret3], frame[HF|T_types_Project|3/ret3], frame[HF|T_types_Project|4/ret3], frame[HF|T_types_Project|5/ret3], frame[HF|T_types_Project|6/ret3], frame[HF|T_types_Project|7/ret3], frame[HF|T_types_Project|8/ret3], frame[HF|T_types_Project|9/ret3], frame[HF|T_types_Resources|0/ret3], frame[HF|T_types_Resources|1/ret3], frame[HF|T_types_Resources|2/ret3], frame[HF|T_types_Resource|0/ret3], frame[HF|T_types_Resource|1/ret3], frame[HF|T_types_Resource|2/ret3], frame[HF|T_types_Resource|3/ret3], frame[HF|T_types_Resource|4/ret3], frame[HF|T_types_Resource|5/ret3], frame[HF|T_types_RestartPolicy|0/ret3], frame[HF|T_types_RestartPolicy|1/ret3], frame[HF|T_types_RestartPolicy|2/ret3], frame[HF|T_types_RestartPolicy|3/ret3], frame[HF|T_types_RestartPolicy|4/ret3], frame[HF|T_types_SecretConfig|0/ret3], frame[HF|T_types_SecretConfig|1/ret3], frame[HF|T_types_SecretConfig|10/ret3], frame[HF|T_types_SecretConfig|2/ret3], frame[HF|T_types_SecretConfig|3/ret3], frame[HF|T_types_SecretConfig|4/ret3], frame[HF|T_types_SecretConfig|5/ret3], frame[HF|T_types_SecretConfig|6/ret3], frame[HF|T_types_SecretConfig|7/ret3], frame[HF|T_types_SecretConfig|8/ret3], frame[HF|T_types_SecretConfig|9/ret3], frame[HF|T_types_ServiceConfigObjConfig|0/ret3], frame[HF|T_types_ServiceConfigObjConfig|1/ret3], frame[HF|T_types_ServiceConfigObjConfig|2/ret3], frame[HF|T_types_ServiceConfigObjConfig|3/ret3], frame[HF|T_types_ServiceConfigObjConfig|4/ret3], frame[HF|T_types_ServiceConfigObjConfig|5/ret3], frame[HF|T_types_ServiceConfig|0/ret3], frame[HF|T_types_ServiceConfig|1/ret3], frame[HF|T_types_ServiceConfig|10/ret3], frame[HF|T_types_ServiceConfig|11/ret3], frame[HF|T_types_ServiceConfig|12/ret3], frame[HF|T_types_ServiceConfig|13/ret3], frame[HF|T_types_ServiceConfig|14/ret3], frame[HF|T_types_ServiceConfig|15/ret3], frame[HF|T_types_ServiceConfig|16/ret3], frame[HF|T_types_ServiceConfig|17/ret3], frame[HF|T_types_ServiceConfig|18/ret3], frame[HF|T_types_ServiceConfig|19/ret3], frame[HF|T_types_ServiceConfig|2/ret3], frame[HF|T_types_ServiceConfig|20/ret3], frame[HF|T_types_ServiceConfig|21/ret3], frame[HF|T_types_ServiceConfig|22/ret3], frame[HF|T_types_ServiceConfig|23/ret3], frame[HF|T_types_ServiceConfig|24/ret3], frame[HF|T_types_ServiceConfig|25/ret3], frame[HF|T_types_ServiceConfig|26/ret3], frame[HF|T_types_ServiceConfig|27/ret3], frame[HF|T_types_ServiceConfig|28/ret3], frame[HF|T_types_ServiceConfig|29/ret3], frame[HF|T_types_ServiceConfig|3/ret3], frame[HF|T_types_ServiceConfig|30/ret3], frame[HF|T_types_ServiceConfig|31/ret3], frame[HF|T_types_ServiceConfig|32/ret3], frame[HF|T_types_ServiceConfig|33/ret3], frame[HF|T_types_ServiceConfig|34/ret3], frame[HF|T_types_ServiceConfig|35/ret3], frame[HF|T_types_ServiceConfig|36/ret3], frame[HF|T_types_ServiceConfig|37/ret3], frame[HF|T_types_ServiceConfig|38/ret3], frame[HF|T_types_ServiceConfig|39/ret3], frame[HF|T_types_ServiceConfig|4/ret3], frame[HF|T_types_ServiceConfig|40/ret3], frame[HF|T_types_ServiceConfig|41/ret3], frame[HF|T_types_ServiceConfig|42/ret3], frame[HF|T_types_ServiceConfig|43/ret3], frame[HF|T_types_ServiceConfig|44/ret3], frame[HF|T_types_ServiceConfig|45/ret3], frame[HF|T_types_ServiceConfig|46/ret3], frame[HF|T_types_ServiceConfig|47/ret3], frame[HF|T_types_ServiceConfig|48/ret3], frame[HF|T_types_ServiceConfig|49/ret3], frame[HF|T_types_ServiceConfig|5/ret3], frame[HF|T_types_ServiceConfig|50/ret3], frame[HF|T_types_ServiceConfig|51/ret3], frame[HF|T_types_ServiceConfig|52/ret3], frame[HF|T_types_ServiceConfig|53/ret3], frame[HF|T_types_ServiceConfig|54/ret3], frame[HF|T_types_ServiceConfig|55/ret3], frame[HF|T_types_ServiceConfig|56/ret3], frame[HF|T_types_ServiceConfig|57/ret3], frame[HF|T_types_ServiceConfig|58/ret3], frame[HF|T_types_ServiceConfig|59/ret3], frame[HF|T_types_ServiceConfig|6/ret3], frame[HF|T_types_ServiceConfig|60/ret3], frame[HF|T_types_ServiceConfig|61/ret3], frame[HF|T_types_ServiceConfig|62/ret3], frame[HF|T_types_ServiceConfig|63/ret3], frame[HF|T_types_ServiceConfig|64/ret3], frame[HF|T_types_ServiceConfig|65/ret3], frame[HF|T_types_ServiceConfig|66/ret3], frame[HF|T_types_ServiceConfig|67/ret3], frame[HF|T_types_ServiceConfig|68/ret3], frame[HF|T_types_ServiceConfig|69/ret3], frame[HF|T_types_ServiceConfig|7/ret3], frame[HF|T_types_ServiceConfig|70/ret3], frame[HF|T_types_ServiceConfig|71/ret3], frame[HF|T_types_ServiceConfig|72/ret3], frame[HF|T_types_ServiceConfig|73/ret3], frame[HF|T_types_ServiceConfig|74/ret3], frame[HF|T_types_ServiceConfig|75/ret3], frame[HF|T_types_ServiceConfig|76/ret3], frame[HF|T_types_ServiceConfig|77/ret3], frame[HF|T_types_ServiceConfig|78/ret3], frame[HF|T_types_ServiceConfig|79/ret3], frame[HF|T_types_ServiceConfig|8/ret3], frame[HF|T_types_ServiceConfig|80/ret3], frame[HF|T_types_ServiceConfig|81/ret3], frame[HF|T_types_ServiceConfig|82/ret3], frame[HF|T_types_ServiceConfig|83/ret3], frame[HF|T_types_ServiceConfig|84/ret3], frame[HF|T_types_ServiceConfig|85/ret3], frame[HF|T_types_ServiceConfig|86/ret3], frame[HF|T_types_ServiceConfig|87/ret3], frame[HF|T_types_ServiceConfig|88/ret3], frame[HF|T_types_ServiceConfig|89/ret3], frame[HF|T_types_ServiceConfig|9/ret3], frame[HF|T_types_ServiceConfig|90/ret3], frame[HF|T_types_ServiceConfig|91/ret3], frame[HF|T_types_ServiceConfig|92/ret3], frame[HF|T_types_ServiceConfig|93/ret3], frame[HF|T_types_ServiceConfig|94/ret3], frame[HF|T_types_ServiceConfig|95/ret3], frame[HF|T_types_ServiceDependency|0/ret3], frame[HF|T_types_ServiceDependency|1/ret3], frame[HF|T_types_ServiceDependency|2/ret3], frame[HF|T_types_ServiceDependency|3/ret3], frame[HF|T_types_ServiceHook|0/ret3], frame[HF|T_types_ServiceHook|1/ret3], frame[HF|T_types_ServiceHook|2/ret3], frame[HF|T_types_ServiceHook|3/ret3], frame[HF|T_types_ServiceHook|4/ret3], frame[HF|T_types_ServiceHook|5/ret3], frame[HF|T_types_ServiceNetworkConfig|0/ret3], frame[HF|T_types_ServiceNetworkConfig|1/ret3], frame[HF|T_types_ServiceNetworkConfig|2/ret3], frame[HF|T_types_ServiceNetworkConfig|3/ret3], frame[HF|T_types_ServiceNetworkConfig|4/ret3], frame[HF|T_types_ServiceNetworkConfig|5/ret3], frame[HF|T_types_ServiceNetworkConfig|6/ret3], frame[HF|T_types_ServiceNetworkConfig|7/ret3], frame[HF|T_types_ServicePortConfig|0/ret3], frame[HF|T_types_ServicePortConfig|1/ret3], frame[HF|T_types_ServicePortConfig|2/ret3], frame[HF|T_types_ServicePortConfig|3/ret3], frame[HF|T_types_ServicePortConfig|4/ret3], frame[HF|T_types_ServicePortConfig|5/ret3], frame[HF|T_types_ServicePortConfig|6/ret3], frame[HF|T_types_ServicePortConfig|7/ret3], frame[HF|T_types_ServiceSecretConfig|0/ret3], frame[HF|T_types_ServiceSecretConfig|1/ret3], frame[HF|T_types_ServiceSecretConfig|2/ret3], frame[HF|T_types_ServiceSecretConfig|3/ret3], frame[HF|T_types_ServiceSecretConfig|4/ret3], frame[HF|T_types_ServiceSecretConfig|5/ret3], frame[HF|T_types_ServiceVolumeBind|0/ret3], frame[HF|T_types_ServiceVolumeBind|1/ret3], frame[HF|T_types_ServiceVolumeBind|2/ret3], frame[HF|T_types_ServiceVolumeBind|3/ret3], frame[HF|T_types_ServiceVolumeBind|4/ret3], frame[HF|T_types_ServiceVolumeConfig|0/ret3], frame[HF|T_types_ServiceVolumeConfig|1/ret3], frame[HF|T_types_ServiceVolumeConfig|2/ret3], frame[HF|T_types_ServiceVolumeConfig|3/ret3], frame[HF|T_types_ServiceVolumeConfig|4/ret3], frame[HF|T_types_ServiceVolumeConfig|5/ret3], frame[HF|T_types_ServiceVolumeConfig|6/ret3], frame[HF|T_types_ServiceVolumeConfig|7/ret3], frame[HF|T_types_ServiceVolumeConfig|8/ret3], frame[HF|T_types_ServiceVolumeTmpfs|0/ret3], frame[HF|T_types_ServiceVolumeTmpfs|1/ret3], frame[HF|T_types_ServiceVolumeTmpfs|2/ret3], frame[HF|T_types_ServiceVolumeVolume|0/ret3], frame[HF|T_types_ServiceVolumeVolume|1/ret3], frame[HF|T_types_ServiceVolumeVolume|2/ret3], frame[HF|T_types_ThrottleDevice|0/ret3], frame[HF|T_types_ThrottleDevice|1/ret3], frame[HF|T_types_ThrottleDevice|2/ret3], frame[HF|T_types_Trigger|0/ret3], frame[HF|T_types_Trigger|1/ret3], frame[HF|T_types_Trigger|2/ret3], frame[HF|T_types_Trigger|3.0/ret3], frame[HF|T_types_Trigger|3.1/ret3], frame[HF|T_types_Trigger|3.2/ret3], frame[HF|T_types_Trigger|3.3/ret3], frame[HF|T_types_Trigger|3.4/ret3], frame[HF|T_types_Trigger|3.5/ret3], frame[HF|T_types_Trigger|4/ret3], frame[HF|T_types_Trigger|5/ret3], frame[HF|T_types_UlimitsConfig|0/ret3], frame[HF|T_types_UlimitsConfig|1/ret3], frame[HF|T_types_UlimitsConfig|2/ret3], frame[HF|T_types_UlimitsConfig|3/ret3], frame[HF|T_types_UpdateConfig|0/ret3], frame[HF|T_types_UpdateConfig|1/ret3], frame[HF|T_types_UpdateConfig|2/ret3], frame[HF|T_types_UpdateConfig|3/ret3], frame[HF|T_types_UpdateConfig|4/ret3], frame[HF|T_types_UpdateConfig|5/ret3], frame[HF|T_types_UpdateConfig|6/ret3], frame[HF|T_types_VolumeConfig|0/ret3], frame[HF|T_types_VolumeConfig|1/ret3], frame[HF|T_types_VolumeConfig|2/ret3], frame[HF|T_types_VolumeConfig|3/ret3], frame[HF|T_types_VolumeConfig|4/ret3], frame[HF|T_types_VolumeConfig|5/ret3], frame[HF|T_types_VolumeConfig|6/ret3], frame[HF|T_types_WeightDevice|0/ret3], frame[HF|T_types_WeightDevice|1/ret3], frame[HF|T_types_WeightDevice|2/ret3], frame[H|Bool|c3fb53125/ret3], frame[H|Int|c1add8684/ret3], frame[H|Int|c28e44f90/ret3], frame[H|Int|c40d3aeb7/ret3], frame[H|Int|c5b326d8e/ret3], frame[H|Int|c64eb48ca/ret3], frame[H|Int|c8ed1817/ret3], frame[H|Int|ca9c96646/ret3], frame[H|Int|cb0ceee8f/ret3], frame[H|Int|cbb36833/ret3], frame[H|Int|cc45547b8/ret3], frame[H|Int|cda0c344b/ret3], frame[H|Int|cddff6ea4/ret3], frame[H|Int|cfdeebdd5/ret3], frame[H|Slice|c3e228655/ret3], frame[H|Slice|c464d3aea/ret3], frame[H|Slice|c49a985bf/ret3], frame[H|Slice|c4fa2984e/ret3], frame[H|Slice|c71097a48/ret3], frame[H|Slice|c8e38b8bb/ret3], frame[H|Slice|c919dc912/ret3], frame[H|Slice|c9c9617b3/ret3], frame[H|Slice|c9cd7011f/ret3], frame[H|Slice|cb73505b/ret3], frame[H|Slice|cc9b86264/ret3], frame[H|Slice|cf52715/ret3], frame[H|Str|cf613ccd0/ret3], frame[M|Str|Any|c8c47bee8/ret3], frame[M|Str|Str|cefb8f1e7/ret3], frame[M|Str|T_types_SecretConfig|c7c89da88/ret3], frame[M|Str|T_types_ServiceConfig|ccb4e64ef/ret3], frame[S|Int|cca883e7c/ret3], frame[S|Str|ce4060d18/ret3], frame[S|T_types_DeviceMapping|cdaeeaf7/ret3], frame[S|T_types_DeviceRequest|ceb56bbec/ret3], frame[S|T_types_EnvFile|cb06b1dc2/ret3], frame[S|T_types_GenericResource|ca7cbadd2/ret3], frame[S|T_types_PlacementPreferences|cc78aba7a/ret3], frame[S|T_types_SSHKey|ca63f0a58/ret3], frame[S|T_types_ServiceConfigObjConfig|c22bbd9ed/ret3], frame[S|T_types_ServiceHook|c7b10ac63/ret3], frame[S|T_types_ServicePortConfig|c48b1ecbd/ret3], frame[S|T_types_ServiceSecretConfig|c17967466/ret3], frame[S|T_types_ServiceVolumeConfig|cbcd59a70/ret3], frame[S|T_types_ThrottleDevice|ce78aa81b/ret3], frame[S|T_types_Trigger|cc0f38b63/ret3], frame[S|T_types_WeightDevice|c34ab9637/ret3] : undischarged on the reference tree (engine limit or missing callee contract), not claimed
 //@   nopanic[C14,C15]
-//@   pure
+//@?  pure   // NOT provable: the last step, WithServicesEnvironmentResolved, reads env files through callbacks and externals (every heap is havocked); not claimed, and no caller assumes it
 //@   ensures[C14] err == nil ==> result != nil && fresh(result)
 //@?   ensures[C14] err == nil ==> forall k string :: has(result.Services, k) ==> mapsFresh(result.Services[k])   // undischarged on the reference tree: not claimed
 //@?   ensures[C15] err == nil && wfp(p) ==> wfp(result)   // undischarged on the reference tree: not claimed
@@ -259,7 +257,6 @@ package types
 // full statement (needs the element-wise model of copy() to relate the copied profile lists to the receiver's):
 //@?  ensures[C15] err == nil && wfp(p) ==> forall i int :: 0 <= i && i < len(names) && has(p.DisabledServices, names[i]) ==> has(result.Services, names[i])
 //@   loop 1
-//@     invariant frame()
 //@     invariant -1 <= rangeindex && rangeindex < len(names)
 //@     invariant newProject != nil && fresh(newProject)
 //@     invariant profiles == nil || fresh(profiles)
